@@ -12,7 +12,7 @@ EXTENDS Naturals, Sequences, FiniteSets, TLC
 CONSTANTS Variant, MaxSteps
 Servers  == {<<>>, <<<<"e1", "on">>>>, <<<<"e1", "off">>>>, <<<<"e1", "on">>, <<"e2", "on">>>>, <<<<"e2", "on">>>>}
 Policies == {"p1", "p2", "p12", "p21"}
-Flows    == {"none", "mif5", "mif7", "tb", "exempt"}
+Flows    == {"none", "mif5", "mif7", "tb", "tbB", "tbQ", "exempt"}    \* tbB / tbQ: the token bucket "tb" with only its burst / only its rate changed
 GateAnn  == {"nil", "absent", "empty", "deny", "close", "deny+close"}
 Loggings == {"", "on", "off"}
 TLSs     == {"none", "k1", "k2"}
